@@ -173,6 +173,31 @@ def run(m: Model, r: Report, tier: str) -> None:
     r.check(okr, "R4", f"{fn.qualname}#report-each-found-session-once",
             "every session with a positive result must be appended to the result exactly once (and stored with its stack)", loc=fn.loc)
 
+    # sessions answered with subFunctionNotSupportedInActiveSession exist but cannot be entered from here: they must not be reported /
+    # stored with the current stack as a transition
+    neg_lists = {n.func.value.id for x in (ifs[1:2] if len(ifs) >= 2 else []) for n in ast.walk(x) if isinstance(n, ast.Call) and isinstance(n.func, ast.Attribute)
+                 and n.func.attr == "append" and isinstance(n.func.value, ast.Name)}
+    neg_loops = [n for n in ast.walk(fn.node) if isinstance(n, ast.For) and any(isinstance(x, ast.Name) and x.id in neg_lists for x in ast.walk(n.iter))]
+    okn = False
+    detail_n = "report loop over the not-activated sessions not found"
+    if len(neg_loops) == 1:
+        nifs = [x for x in neg_loops[0].body if isinstance(x, ast.If)]
+        if len(nifs) == 1:
+            conj = nifs[0].test.values if isinstance(nifs[0].test, ast.BoolOp) and isinstance(nifs[0].test.op, ast.And) else [nifs[0].test]
+            codes = [ast.unparse(c.comparators[0]) for c in conj if isinstance(c, ast.Compare) and len(c.ops) == 1 and isinstance(c.ops[0], ast.NotEq) and "['error']" in ast.unparse(c.left)]
+            memb = [c for c in conj if isinstance(c, ast.Compare) and len(c.ops) == 1 and isinstance(c.ops[0], ast.NotIn)]
+            detail_n = f"filter is `{ast.unparse(nifs[0].test)}`"
+            okn = codes == ["UDSErrorCodes.subFunctionNotSupportedInActiveSession"] and len(memb) == 1 and len(conj) == 2
+    r.check(okn, "R4", f"{fn.qualname}#identified-filter",
+            f"{detail_n}; a not-activated session is listed / stored iff it was never activated and its NRC is not subFunctionNotSupportedInActiveSession (0x7E)", loc=fn.loc)
+
+    from sa.util import accepts_domain, check_unravel_inclusive
+    refused = accepts_domain(m, "gallia.services.uds.core.utils.check_sub_function", range(1, 0x80))
+    r.check(not refused, "R5", "gallia.services.uds.core.utils.check_sub_function#accepts-probe-domain",
+            f"the request constructor's range check refuses {[hex(v) for v in refused[:4]]} of the probe domain 0x01..0x7F: the scanner's catch-all only logs the "
+            "ValueError, so these sessions are never requested and are missing from the result", loc="src/gallia/services/uds/core/utils.py")
+    check_unravel_inclusive(m, r, "R2")
+
     # ---------------------------------------------------------------- R6
     hh = m.require_function(f"{SCAN}.SessionsScanner.set_session_with_hooks_handling")
     calls = [n for n in ast.walk(hh.node) if isinstance(n, ast.Call) and ast.unparse(n.func) == "self.ecu.set_session"]
